@@ -295,7 +295,71 @@ type caseV2 struct {
 	Refs    string  `json:"refs"`
 }
 
+// largeSignerLists: arbiter sets beyond 32 members (mainnet: 36). The quorum can only be met by
+// long lists, so the menu is built around it: distinct lists around both quorum formulas, one
+// index repeated until it fills the quorum alone, a distinct list topped up by a repeated index,
+// and every list of length <= 2 over {0,31,32,33,n-1,n,255} appended to a distinct prefix.
+func largeSignerLists(n int) [][]uint8 {
+	q := n * 2 / 3
+	var out [][]uint8
+	first := func(k int) []uint8 {
+		var l []uint8
+		for i := 0; i < k; i++ {
+			l = append(l, uint8(i))
+		}
+		return l
+	}
+	for k := q - 1; k <= q+2; k++ {
+		out = append(out, first(k))
+	}
+	hot := []uint8{0, 31, 32, 33, uint8(n - 1)}
+	for _, r := range hot {
+		for _, cnt := range []int{q, q + 1} {
+			var l []uint8
+			for i := 0; i < cnt; i++ {
+				l = append(l, r)
+			}
+			out = append(out, l)
+		}
+		// a distinct list one or two short of the quorum, topped up by r twice / three times
+		out = append(out, append(first(q-1), r, r))
+		out = append(out, append(first(q-2), r, r, r))
+		// two different high indexes alternating
+		var alt []uint8
+		for i := 0; i < q+1; i++ {
+			if i%2 == 0 {
+				alt = append(alt, r)
+			} else {
+				alt = append(alt, uint8(n-2))
+			}
+		}
+		out = append(out, alt)
+	}
+	alpha := []uint8{0, 31, 32, 33, uint8(n - 1), uint8(n), 255}
+	prefix := first(q - 1)
+	for _, a := range alpha {
+		out = append(out, append(append([]uint8{}, prefix...), a))
+		for _, b := range alpha {
+			out = append(out, append(append([]uint8{}, prefix...), a, b))
+		}
+	}
+	// the same, with a prefix that avoids the low indexes (all signers >= 8)
+	var high []uint8
+	for i := n - (q - 1); i < n; i++ {
+		high = append(high, uint8(i))
+	}
+	for _, a := range alpha {
+		for _, b := range alpha {
+			out = append(out, append(append([]uint8{}, high...), a, b))
+		}
+	}
+	return out
+}
+
 func signerLists(n int) [][]uint8 {
+	if n > 12 {
+		return largeSignerLists(n)
+	}
 	alpha := []uint8{0, 1, uint8(n - 1), uint8(n), 255}
 	var prefix []uint8
 	if n > 4 {
@@ -481,7 +545,10 @@ func (f *fixtureA) runV2(eraName string, full bool) v2Result {
 			for _, rv := range refsVariants[1:] {
 				combos = append(combos, pr{"agg-listed", rv.Name})
 			}
-			if full {
+			if f.n > 12 {
+				// large arbiter sets: the signer-index handling is what is explored
+				combos = []pr{{"agg-listed", "cross"}, {"agg-distinct", "cross"}, {"agg-listed", "cross+standard"}}
+			} else if full {
 				combos = combos[:0]
 				for _, pv := range progVariants {
 					for _, rv := range refsVariants {
